@@ -77,6 +77,11 @@ impl PathRequireMode {
         if let Some(config) =
             utils::find_luau_configuration(context.current_path(), context.resources())?
         {
+            if let Some(location) = config.location.as_ref() {
+                // the aliases come from this file: requires resolved through them
+                // have to be resolved again when it changes
+                context.add_file_dependency(location.clone());
+            }
             self.luau_rc_aliases.replace(config.aliases);
         } else {
             self.luau_rc_aliases.take();
